@@ -910,10 +910,18 @@ def nocase(str1, str2):
 
 
 if 'locale' in sys.modules:  # only if locale is already imported
-    from locale import strcoll
+    from locale import strcoll as _strcoll
+
+    def strcoll(str1, str2):
+        if str1 is _Smallest or str2 is _Smallest:
+            # a missing or None key sorts first, whatever the locale
+            return cmp(str1, str2)
+        return _strcoll(str1, str2)
 
     def strcoll_nocase(str1, str2):
-        return strcoll(str1.lower(), str2.lower())
+        if str1 is _Smallest or str2 is _Smallest:
+            return cmp(str1, str2)
+        return _strcoll(str1.lower(), str2.lower())
 
 
 def make_sortfunctions(sortfields, md):
